@@ -3,6 +3,7 @@
    (SAM approximations, every repetition count).  [computer] = CRef | CCached | CSam r covers the whole BOUNDS registry
    (RegistryProps, generated from /repo, maps every registered name to one of these). *)
 From ICG Require Import Prelude Bits Table Bounds GameOps FoldLemmas BoundsSpec SASound SAEquiv SAKnowledge SAMKnowledge Checks.
+From ICG Require Import RegistryTypes gen.Registry gen.RegistryLinkProps.
 
 (* Two tables with the same known rows - unknown rows hold arbitrary stale numbers - give the same result
    (both raise, or both succeed with identical rows for every coalition of the n-player game). Any game class, any computer. *)
@@ -38,6 +39,13 @@ Theorem C08_computed_is_fresh :
   forall (c : computer) n t t', compute c n t = Some t' -> fresh c n t'.
 Proof. exact computed_is_fresh. Qed.
 Print Assumptions C08_computed_is_fresh.
+
+(* "every registered bound computer": the BOUNDS registry of /repo, regenerated into Coq on every run; each key
+   denotes one [computer], so the theorems above (stated for all computers) cover it *)
+Theorem C08_registry_all_modelled :
+  Forall (fun kv => exists c : computer, rl_computer (snd kv) = Some c) bounds_registry.
+Proof. exact registry_bounds_modelled. Qed.
+Print Assumptions C08_registry_all_modelled.
 
 Definition ex_v : N -> Q := game_of [0; -1; 2; 3; 1#2; 1; 4; 9].
 Definition ex_K : N -> bool := known_in [0; 1; 2; 4; 7; 3]%N.
